@@ -11,13 +11,15 @@ from .fontlib import gdl, gen
 
 def _make(args):
     kind, seed, i, outdir = args
-    rng = random.Random((seed * 1000003 + i) * 7 + {'hostile': 1, 'c06': 2, 'wellformed': 3, 'just': 4}.get(kind, 9))
+    rng = random.Random((seed * 1000003 + i) * 7 + {'hostile': 1, 'c06': 2, 'wellformed': 3, 'just': 4, 'stateful': 5}.get(kind, 9))
     for attempt in range(20):
         try:
             if kind == 'hostile':
                 spec = gen.hostile_spec(rng)
             elif kind == 'just':
                 spec = gen.just_spec(rng)
+            elif kind == 'stateful':
+                spec = gen.stateful_spec(rng)
             else:
                 spec = gen.gen_spec(rng, gen.C06_ALL)
             gen.vary_container(rng, spec)
